@@ -152,6 +152,12 @@ func c07Run(c *core.Ctx, i int) {
 		k := ((i - np) / 40) % len(c07BlankBlocks)
 		src, origin = c07BlankBlocks[k], "deep-nesting"
 		c.Cover("blank-only-block", fmt.Sprint(k))
+	} else if m := (i - np) % 40; m == 13 || m == 23 || m == 27 || m == 37 {
+		// multi-line array and map literals: empty ones, blank-line runs of every length, comments in
+		// every position, at every indentation level
+		k := (i-np)/40*4 + map[int]int{13: 0, 23: 1, 27: 2, 37: 3}[m]
+		src, origin = c07MultilineLiteral(k), "deep-nesting"
+		c.Cover("multiline-literal", fmt.Sprint(k%c07MultilineCount))
 	} else if (i-np)%40 == 7 {
 		depth := 1 + ((i-np)/40)%16
 		src, origin = deepSource(c.Rng, depth), "deep-nesting"
@@ -167,6 +173,63 @@ var c07BlankBlocks = []string{
 	"if true\n\nend\n", "if true\n\n\n\nend\nprint 1\n", "func nop\n\nend\nnop\n", "while false\n\nend\n", "for range 2\n\nend\n", "if true\n    print 1\nelse\n\nend\n",
 	"if false\n\nelse if true\n\nelse\n\nend\n", "on key\n\nend\n", "for i := range 2\n    if i > 0\n\n    end\n    print i\nend\n", "func f:num\n    if true\n\n    end\n    return 1\nend\nprint (f)\n",
 	"if true\n    // only a comment\nend\n", "while false\n    \n\t\nend\n", "if true\n\n    print 1\n\nend\n", "func g\n\n    print 2\n\n\nend\ng\n",
+}
+
+// c07MultilineLiteral enumerates (index k, wrapping) multi-line literals: bracket kind x inner
+// layout (blank-line runs of 1..4 lines, comments after the opener / on their own line / after the
+// last element / before the closer, zero to two elements) x context (top level, in a block, in a
+// nested block, nested in another multi-line literal, as a call argument).
+const c07MultilineCount = 2 * 16 * 5
+
+func c07MultilineLiteral(k int) string {
+	k %= c07MultilineCount
+	kind, lay, ctx := k%2, (k/2)%16, k/32
+	open, cl, e1, e2 := "[", "]", "1", "2"
+	if kind == 1 {
+		open, cl, e1, e2 = "{", "}", "a:1", "b:2"
+	}
+	nl := func(n int) string { return strings.Repeat("\n", n) }
+	var in string // text between the brackets
+	switch lay {
+	case 0, 1, 2, 3: // only blank lines
+		in = nl(lay + 1)
+	case 4, 5, 6: // comment after the opener, then blank lines
+		in = " // c" + nl(lay-3)
+	case 7: // comment on its own line between blank-line runs
+		in = nl(2) + "// c" + nl(3)
+	case 8: // one element, comment after it, closer on the next line
+		in = "\n" + e1 + " // last" + "\n"
+	case 9: // elements, then a comment-only line right before the closer
+		in = "\n" + e1 + "\n" + e2 + "\n// end" + "\n"
+	case 10: // elements separated by blank-line runs
+		in = nl(3) + e1 + nl(3) + e2 + nl(3)
+	case 11: // element right after the opener, comment, blank lines
+		in = e1 + " // c" + nl(3)
+	case 12: // comment lines only
+		in = "\n// a\n// b\n"
+	case 13: // comment, two blank lines, comment
+		in = "\n// a" + nl(3) + "// b\n"
+	case 14: // element and closer on one line after blank lines
+		in = nl(3) + e1 + " " + e2
+	default: // trailing comment on the opener, element, blank lines, comment, closer
+		in = " // o\n" + e1 + nl(2) + "// c\n"
+	}
+	lit := open + in + cl
+	switch ctx {
+	case 0:
+		return "x := " + lit + "\nprint x\n"
+	case 1:
+		return "if true\n    x := " + lit + "\n    print x\nend\n"
+	case 2:
+		return "func f\n    for i := range 2\n        x := " + lit + "\n        print x i\n    end\nend\nf\n"
+	case 3:
+		if kind == 1 {
+			return "x := {\n    outer:" + lit + "\n    o2:{}\n}\nprint x\n"
+		}
+		return "x := [\n    " + lit + "\n    []\n]\nprint x\n"
+	default:
+		return "while true\n    print " + lit + " (len " + lit + ")\n    break\nend\n"
+	}
 }
 
 func c07One(c *core.Ctx, src, origin string, i int) {
